@@ -343,7 +343,11 @@ def run_sympy_symbolic(case, ctx):
               "sympy: symbolic statevector, after substituting the parameter values, differs from the gate definitions",
               lambda: {"gates": sym_gates, "values": vals, "got": got, "expected": expected_vector(ref, n, order)})
     ef = refsim.freq_dict(ref, n)
-    gf = {k: float(sympy.N(sympy.sympify(v).subs(subs))) for k, v in freqs.items()}
+    def _num(v):
+        # a symbolic probability evaluates to a complex number with a round-off imaginary part for some angle values
+        z = complex(sympy.N(sympy.sympify(v).subs(subs)))
+        return z.real if abs(z.imag) < 1e-9 else float("nan")
+    gf = {k: _num(v) for k, v in freqs.items()}
     ok = all(abs(gf.get(k, 0) - ef.get(k, 0)) < 1e-6 for k in set(ef) | set(gf))
     ctx.check("sympy_symbolic_frequencies", ok, "sympy: symbolic frequencies differ after substitution",
               lambda: {"gates": sym_gates, "values": vals, "got": gf, "expected": ef})
